@@ -185,12 +185,19 @@ def l_hdr(F, R):
                            "%s applies `%s` to the packet buffer: besides pushing the control byte, writing the remaining length and "
                            "letting the body encode itself, nothing may modify or re-window the buffer" % (cur, n["fn"].get("def") or nm), where=loc(n))
     # S-refuse: total_len(..) is under `?` (its Err leaves the function) and precedes the first write
-    tl_try = False
-    for n in walk_all(b):
-        if n.get("k") == "Try":
-            c = strip(n["e"])
-            if c.get("k") == "Call" and c["fn"].get("def") == "common::utils::total_len":
-                tl_try = True
+    def _tl_try(body, depth=0):
+        for n in walk_all(body):
+            if n.get("k") == "Try":
+                c = strip(n["e"])
+                if c.get("k") == "Call" and c["fn"].get("def") == "common::utils::total_len":
+                    return True
+                callee = (c["fn"].get("res") or c["fn"].get("def")) if c.get("k") == "Call" else None
+                if callee in F.fns and depth < 2:
+                    hb = nbody(F, callee)           # a helper of the crate whose own error is propagated with `?`
+                    if hb is not None and _tl_try(hb, depth + 1):
+                        return True
+        return False
+    tl_try = _tl_try(b)
     R.check(tl_try, "S-refuse", "encode_packet/total_len-propagated",
             "encode_packet does not propagate total_len's error with `?`", where=fid)
     R.check(bool(kinds) and kinds[0] == "total_len", "S-refuse", "encode_packet/refuse-before-write",
